@@ -71,6 +71,7 @@ AreaOK(v, nm, r) == r.cmin < 1000 \/ r.fi > 6 \/ v <= AreaTolAt0(nm, r.cmin)
 AreaOKInv(v, nm, r) ==
   r.cmin < 1000 \/ r.fi > 6 \/ r.m12m < 1000 \/ v <= AreaTolAt0(nm, r.cmin) + (400000 * nm) \div (r.m12m \div 1000)
 ScaleTol == 1000                              \* 1e-12: geodesic scales M12, M21
+OvlTol == 100                                 \* 1e-13 (relative): the same quantity through another overload / output mask
 
 DlOK(r) ==
   LET c == Circ(r)  se == TolSE(r.fi) * c  ss == TolSS(r.fi) * c IN
@@ -94,7 +95,10 @@ DlOK(r) ==
         /\ AreaOK(r.mm[4], se, r)
         /\ r.mm[5] <= ss /\ r.mm[6] <= ScaleTol * c /\ r.mm[7] <= ScaleTol * c /\ AreaOK(r.mm[8], ss, r)
         \* reversal: m12 negated by travelling backwards, M12 and M21 exchanged, S12 negated
-        /\ r.back[1] <= ss /\ r.back[2] <= ss /\ r.back[3] <= ScaleTol * c /\ r.back[4] <= ScaleTol * c /\ AreaOK(r.back[5], ss, r))
+        /\ r.back[1] <= ss /\ r.back[2] <= ss /\ r.back[3] <= ScaleTol * c /\ r.back[4] <= ScaleTol * c /\ AreaOK(r.back[5], ss, r)
+        \* every overload that returns only some of m12, M12, M21, S12 returns what the full call returns (round-off: the same
+        \* formulas are evaluated whatever else is requested)
+        /\ \A k \in 1..Len(r.ovl) : r.ovl[k] <= OvlTol)
 
 \* the inverse problem is well conditioned for azimuths: not (nearly) coincident, antipodal or polar-antipodal
 \* (catalogue in Geodesic.hpp: lat1 = -lat2 with azi1 # azi2, and lon2 = lon1 +- 180 with azi1 not 0/180, have two solutions)
@@ -127,6 +131,7 @@ IlOK(r) ==
   /\ (Prop = "C03" /\ Conditioned(r) =>
         /\ r.agr[6] <= se /\ r.agr[7] <= ScaleTol /\ r.agr[8] <= ScaleTol /\ AreaOKInv(r.agr[9], se, r)
         /\ r.itf[1] <= ss /\ r.itf[2] <= ScaleTol /\ r.itf[3] <= ScaleTol /\ AreaOKInv(r.itf[4], ss, r))
+  /\ (Prop = "C03" => \A k \in 1..Len(r.ovl) : r.ovl[k] <= OvlTol)
 
 AlOK(r) ==
   LET t == IF r.kind = 0 THEN TolSS(r.fi) ELSE TolEE IN
